@@ -1,5 +1,5 @@
 CONSTANTS
-  Prog <- P_hb2
+  Prog <- P_hb4
   Mult = 32
   MaxW = 1
   GS = 2
@@ -12,8 +12,8 @@ CONSTANTS
   Batch = 8
   MaxGen = 3
   AllowTimeout = FALSE
-  DepOrd = TRUE
+  DepOrd = FALSE
 INIT HInit
 NEXT HNext
 CHECK_DEADLOCK FALSE
-INVARIANTS OrdersComplete DeadOK RaceFree AtMostOnce AllRanWhenDead CountersSane NoError
+INVARIANTS OrdersComplete DeadOK RaceFreeRings RaceFreeData AtMostOnce AllRanWhenDead CountersSane NoError
